@@ -452,6 +452,22 @@ fn scenarios() -> Vec<(&'static str, Vec<String>, bool)> {
     v.push(("nested IF line", vec![format!("10 {}PRINT 1", many("IF 1 THEN ", 1000)), "RUN".into()], false));
     v.push(("string doubling", vec!["10 A$=\"é\"".into(), "20 A$=A$+A$:GOTO 20".into(), "RUN".into()], false));
     v.push(("direct-mode runaway", vec!["10 GOSUB 10".into(), "GOSUB 10".into()], true));
+    // terminating programs whose statements discard frames that were left open: nothing may pile up
+    v.push((
+        "terminates: inner FOR left early, closed by the named outer NEXT",
+        vec!["10 FOR I=1 TO 20000".into(), "20 FOR J=1 TO 3".into(), "30 IF J=2 THEN 50".into(), "40 NEXT J".into(), "50 NEXT I".into(), "60 PRINT \"DONE\";I".into(), "RUN".into()],
+        false,
+    ));
+    v.push((
+        "terminates: RETURN out of a FOR loop inside the subroutine",
+        vec!["10 FOR I=1 TO 20000:GOSUB 100:NEXT I".into(), "20 PRINT \"DONE\";I:END".into(), "100 FOR J=1 TO 3:FOR K=1 TO 2:IF K=2 THEN RETURN".into(), "110 NEXT K,J:RETURN".into(), "RUN".into()],
+        false,
+    ));
+    v.push((
+        "terminates: two inner loops left early under NEXT J,I",
+        vec!["10 FOR I=1 TO 9000:FOR J=1 TO 2".into(), "20 FOR K=1 TO 3:FOR L=1 TO 3:IF L=2 THEN 40".into(), "30 NEXT L,K".into(), "40 NEXT J,I".into(), "50 PRINT \"DONE\";I".into(), "RUN".into()],
+        false,
+    ));
     v
 }
 
@@ -496,6 +512,9 @@ fn check_limit(item: &str, _ctx: &Ctx) -> Outcome {
     }
     if must_oom && !out.contains("?OUT OF MEMORY") {
         return Outcome::fail("limit-not-reported-as-out-of-memory", format!("transcript: {:?}", out), name.to_string());
+    }
+    if name.starts_with("terminates:") && (!out.contains("DONE") || out.contains('?')) {
+        return Outcome::fail("terminating-program-ran-out-of-memory", format!("transcript: {:?}", out), name.to_string());
     }
     if out.contains("NOT REACHED") {
         return Outcome::fail("limit-not-enforced", format!("transcript: {:?}", out), name.to_string());
@@ -680,6 +699,10 @@ fn check_full(item: &str, _ctx: &Ctx) -> Outcome {
         (format!("{}(32767)={}", b, one), ""),
         (format!("PRINT {}(32767);{}(5);\"|\"", b, a), if item == "string" { "x|\n" } else { " 1  0 |\n" }),
         (format!("{}(6)={}:{}(6)={}", a, zero, a, one), ""),
+        // a default value needs no slot, also for a name that never had one
+        ("ZY=0".to_string(), ""),
+        ("ZY$=\"\":ZX%=0:ZW#=0".to_string(), ""),
+        (format!("{}(7)={}:PRINT ZY;ZY$;\"|\"", a, one), " 0 |\n"),
     ];
     for (cmd, want) in &steps {
         term.line(cmd, &mut o);
